@@ -149,30 +149,6 @@ def worker(analysis: Analysis, spec) -> dict:
     return {"ctx": "/".join(spec), "version": version, "rows": rows, "pres_req": pres_req, "n": len(recs)}
 
 
-def presentation_request_rule(analysis: Analysis, res: RuleResult) -> None:
-    """R2: the presentation request built in is_sensor (AST + version guard)."""
-    import ast
-
-    from ..frontend import unparse
-
-    info = analysis.p.func("__init__:Gateway.is_sensor")
-    found = False
-    for n in ast.walk(info.node):
-        if isinstance(n, ast.If) and ("AwesomeVersion" in unparse(n.test) or "version_at_least" in unparse(n.test)) and "not ret" in unparse(n.test):
-            txt = unparse(n.test)
-            guard_ok = (">= AwesomeVersion('2.0')" in txt or "version_at_least(self.protocol_version, '2.0')" in txt) and "self.protocol_version" in txt
-            res.add("C05-R2", "__init__:Gateway.is_sensor / presentation request only when the lookup failed and version >= 2.0", guard_ok, common.where(analysis, info, n), txt[:100])
-            for c in common.calls_in(n, "modify"):
-                kw = {k.arg: unparse(k.value) for k in c.keywords}
-                ok = kw.get("node_id") == info.node.args.args[1].arg and kw.get("child_id") in ("SYSTEM_CHILD_ID", "255") and kw.get("type", "").endswith("MessageType.internal") and kw.get("sub_type", "").endswith("Internal.I_PRESENTATION") and "payload" not in kw
-                found = True
-                res.add("C05-R2", "__init__:Gateway.is_sensor / presentation request addressed to the node that was looked up", ok, common.where(analysis, info, c), f"fields {kw}")
-            jobs = list(common.calls_in(n, "add_job"))
-            res.add("C05-R2", "__init__:Gateway.is_sensor / one presentation request per failed lookup", len(jobs) == 1, common.where(analysis, info, n), f"{len(jobs)} add_job call(s) in the branch")
-    if not found:
-        raise AnalysisError("C05-R2: presentation request construction in is_sensor not recognised")
-
-
 def run(analysis: Analysis, tier: str) -> RuleResult:
     res = RuleResult(PROP)
     res.explanation = [
